@@ -520,11 +520,13 @@ pub struct PrintOpts {
    pub init_rels: Vec<String>,
    /// emit a decoy earlier declaration (different initialiser) for these relations: last one must win
    pub redeclare: Vec<String>,
+   /// relations that get an earlier declaration WITH a (decoy) initialiser and a final declaration WITHOUT one
+   pub redeclare_noinit: Vec<String>,
 }
 
 impl PrintOpts {
    pub fn plain(kind: Kind) -> Self {
-      PrintOpts { kind, attrs: vec![], generic: false, include_cut: None, init_rels: vec![], redeclare: vec![] }
+      PrintOpts { kind, attrs: vec![], generic: false, include_cut: None, init_rels: vec![], redeclare: vec![], redeclare_noinit: vec![] }
    }
    pub fn has_attr(&self, a: &str) -> bool { self.attrs.iter().any(|x| x == a) }
 }
@@ -554,6 +556,11 @@ pub fn program_items_opts(prog: &Program, opts: Option<&PrintOpts>) -> Vec<Strin
             let key = if o.kind.is_run() { format!("in_{}", r.name) } else { r.name.clone() };
             items.push(p_decl_init(r, Some(&init_expr(&key))));
             continue;
+         }
+         if o.redeclare_noinit.contains(&r.name) {
+            // an earlier declaration with an initialiser, then the plain declaration: nothing of the initialiser may survive
+            let key = if o.kind.is_run() { format!("decoy_{}", r.name) } else { format!("{}#decoy", r.name) };
+            items.push(p_decl_init(r, Some(&init_expr(&key))));
          }
       }
       items.push(p_decl(r));
@@ -635,7 +642,7 @@ pub fn print_module(mod_name: &str, prog: &Program, opts: &PrintOpts, ast_json: 
       writeln!(s, "      {struct_sig}").unwrap();
       write!(s, "{body_text}").unwrap();
       writeln!(s, "   }}").unwrap();
-      if !opts.init_rels.is_empty() {
+      if !opts.init_rels.is_empty() || !opts.redeclare_noinit.is_empty() {
          // deferred construction: the initialisers run inside `P::default()`, so the rows must be known by then
          writeln!(s, "   pub struct G {{ pub pending: ::vglue::Db, pub p: Option<P> }}").unwrap();
          writeln!(s, "   impl ::vglue::Prog for G {{").unwrap();
@@ -645,6 +652,7 @@ pub fn print_module(mod_name: &str, prog: &Program, opts: &PrintOpts, ast_json: 
          writeln!(s, "      fn run(&mut self) {{").unwrap();
          writeln!(s, "         let init: &[&str] = &[{}];", opts.init_rels.iter().map(|n| format!("{n:?}")).collect::<Vec<_>>().join(", ")).unwrap();
          writeln!(s, "         ::vglue::set_pending(&self.pending, init);").unwrap();
+         writeln!(s, "         ::vglue::add_pending_decoys(&self.pending, &[{}]);", opts.redeclare_noinit.iter().map(|n| format!("{n:?}")).collect::<Vec<_>>().join(", ")).unwrap();
          writeln!(s, "         let mut p = P::default();").unwrap();
          writeln!(s, "         ::vglue::clear_pending();").unwrap();
          writeln!(s, "         for (rel, rows) in &self.pending.rels {{").unwrap();
@@ -718,7 +726,7 @@ pub fn print_module(mod_name: &str, prog: &Program, opts: &PrintOpts, ast_json: 
          .unwrap();
       }
       for r in &rels {
-         if opts.redeclare.contains(&r.name) {
+         if opts.redeclare.contains(&r.name) || opts.redeclare_noinit.contains(&r.name) {
             let ty = tuple_of(&r.cols, |_, t| t.rust().to_string());
             let tup = tuple_of(&r.cols, |i, _| format!("::vglue::cv(&r[{i}])"));
             writeln!(s, "         let decoy_{n}: Vec<{ty}> = ::vglue::decoy_rows_for({n:?}, &self.input).iter().map(|r| {tup}).collect();", n = r.name).unwrap();
@@ -812,7 +820,7 @@ fn serde_json_lite(opts: &PrintOpts) -> String {
    // PrintOpts only holds strings, booleans and small integers; rendered by hand to keep vcore free of serde_json
    let strs = |v: &Vec<String>| format!("[{}]", v.iter().map(|s| format!("{s:?}")).collect::<Vec<_>>().join(","));
    format!(
-      "{{\"kind\":\"{:?}\",\"attrs\":{},\"generic\":{},\"include_cut\":{},\"init_rels\":{},\"redeclare\":{}}}",
+      "{{\"kind\":\"{:?}\",\"attrs\":{},\"generic\":{},\"include_cut\":{},\"init_rels\":{},\"redeclare\":{},\"redeclare_noinit\":{}}}",
       opts.kind,
       strs(&opts.attrs),
       opts.generic,
@@ -821,6 +829,7 @@ fn serde_json_lite(opts: &PrintOpts) -> String {
          Some((a, b)) => format!("[{a},{b}]"),
       },
       strs(&opts.init_rels),
-      strs(&opts.redeclare)
+      strs(&opts.redeclare),
+      strs(&opts.redeclare_noinit)
    )
 }
